@@ -118,7 +118,8 @@ type Scenario struct {
 	PingMs      int       `json:"ping_ms,omitempty"`
 	SlowActive  bool      `json:"slow_active,omitempty"` // the ConnState(Active) callback yields for a while (steering)
 	NoSentinel  bool      `json:"no_sentinel,omitempty"`
-	KeepOpen    bool      `json:"keep_open,omitempty"` // do not disconnect at the end: the caller samples and calls Finish
+	KeepOpen    bool      `json:"keep_open,omitempty"`    // do not disconnect at the end: the caller samples and calls Finish
+	RichConnect bool      `json:"rich_connect,omitempty"` // CONNECT with will, credentials and keep-alive (must be identical on every connection)
 	// Steer: park the reconnect goroutine inside the ConnectOption (between SetClient
 	// and BaseClient.Connect's initialisation) of connection N and run these steps meanwhile.
 	SteerConn  int    `json:"steer_conn,omitempty"`
@@ -373,6 +374,10 @@ func Exec(sc *Scenario) *Run {
 	}
 	var connOpts []mqtt.ConnectOption
 	connOpts = append(connOpts, mqtt.WithCleanSession(sc.Clean))
+	if sc.RichConnect {
+		connOpts = append(connOpts, mqtt.WithWill(&mqtt.Message{Topic: "will/verif", Payload: []byte("gone"), QoS: mqtt.QoS1, Retain: true}),
+			mqtt.WithUserNamePassword("user-é", "secret"), mqtt.WithKeepAlive(3600))
+	}
 
 	var submMu sync.Mutex
 	var stormStop chan struct{}
@@ -577,7 +582,7 @@ func Exec(sc *Scenario) *Run {
 		}
 		cli = rc
 		r.Cli = rc
-	case "retry", "retry-retryfirst":
+	case "retry", "retry-retryfirst", "retry-chaotic":
 		// RetryClient driven directly through the Retryer contract by a harness-owned loop
 		// (Dial, SetClient, Connect, Resubscribe/Retry in either order, wait for Done).
 		rl := &retryLoop{RetryClient: retry, d: d, sc: sc, tr: tr, base: base, max: max, to: to, stop: make(chan struct{}), done: make(chan struct{}), first: make(chan error, 1)}
@@ -948,6 +953,13 @@ type retryLoop struct {
 	first         chan error
 	stopOnce      sync.Once
 	setupPending  int32 // connections whose Resubscribe/Retry tasks have not both been pushed yet
+	chaosN        uint32
+}
+
+// chaos returns a deterministic pseudo-random number in [0,n) (the loop's own decisions).
+func (l *retryLoop) chaos(n int) int {
+	l.chaosN = l.chaosN*1664525 + 1013904223 + uint32(len(l.sc.Steps))
+	return int(l.chaosN>>16) % n
 }
 
 // SetupDone reports whether the loop has pushed the tasks of every established connection.
@@ -994,6 +1006,14 @@ func (l *retryLoop) run(clientID string, opts []mqtt.ConnectOption) {
 			continue
 		}
 		atomic.AddInt32(&l.setupPending, 1) // until Resubscribe/Retry of this connection are both pushed
+		if l.sc.Client == "retry-chaotic" && l.chaos(3) == 0 {
+			// a dialled client is handed to SetClient and then abandoned without connecting it
+			l.RetryClient.SetClient(ctx, baseCli)
+			baseCli.Close()
+			l.tr.Note("retry-chaotic: client abandoned after SetClient")
+			atomic.AddInt32(&l.setupPending, -1)
+			continue
+		}
 		l.RetryClient.SetClient(ctx, baseCli)
 		cctx, cancel := context.WithTimeout(ctx, time.Duration(l.to)*time.Millisecond)
 		sp, err := l.RetryClient.Connect(cctx, clientID, opts...)
@@ -1009,7 +1029,23 @@ func (l *retryLoop) run(clientID string, opts []mqtt.ConnectOption) {
 		}
 		wait = time.Duration(l.base) * time.Millisecond
 		resub := initialized && (!sp || l.sc.AlwaysResub)
-		if l.sc.Client == "retry-retryfirst" {
+		if l.sc.Client == "retry-chaotic" {
+			// the contract does not order or limit the calls: extra Retry / Resubscribe calls must be harmless
+			// (re-subscription only where the reconnecting client would do it as well)
+			if l.chaos(2) == 0 {
+				l.RetryClient.Retry(ctx)
+			}
+			if resub {
+				l.RetryClient.Resubscribe(ctx)
+				if l.chaos(3) == 0 {
+					l.RetryClient.Resubscribe(ctx)
+				}
+			}
+			l.RetryClient.Retry(ctx)
+			if l.chaos(2) == 0 {
+				l.RetryClient.Retry(ctx)
+			}
+		} else if l.sc.Client == "retry-retryfirst" {
 			l.RetryClient.Retry(ctx)
 			if resub {
 				l.RetryClient.Resubscribe(ctx)
